@@ -363,7 +363,7 @@ def string_form_clauses(ctx, facts, roles, ts, cfg, K="K4"):
                     continue
                 # any other spelling (peeled first element, helpers that receive the buffer or the element, flags):
                 # the emission table of the array arm — (first | later) × (null | other) → what is appended
-                ev = JL.shared_state_across_nesting(facts, ts)
+                ev = JL.shared_state_across_nesting(facts, ts) or JL.descends_into_elements(facts, ts)
                 if ev:
                     ctx.fail(K + ".array-element", "string form of Array|nested arrays (%s)" % cfg, ev, where=ts.where(), fn=ts.key)
                     continue
